@@ -1,4 +1,5 @@
 mod common;
+mod c18;
 mod c12;
 mod c19;
 mod c10;
@@ -10,7 +11,9 @@ mod c11;
 mod c14;
 mod store;
 mod c01;
+mod c02;
 mod c03;
+mod fstrace;
 mod c04;
 mod c08;
 
@@ -20,6 +23,9 @@ fn main() {
     match args.prop.as_str() {
         "C14" => c14::run(&args),
         "C01" => c01::run(&args),
+        "C02" => c02::run(&args),
+        "C02child" => c02::child_run(&args.rest),
+        "C02reopen" => c02::child_reopen(&args.rest),
         "C03" => c03::run(&args),
         "C04" => c04::run(&args),
         "C08" => c08::run(&args),
@@ -31,6 +37,7 @@ fn main() {
         "C10" => c10::run(&args),
         "C19" => c19::run(&args),
         "C12" => c12::run(&args),
+        "C18" => c18::run(&args),
         x => {
             eprintln!("unknown property {}", x);
             std::process::exit(2);
